@@ -103,7 +103,9 @@ func runComp(seed uint64, cc *CompCase, sched []simrt.Deviation, replay bool, st
 	if strat != nil {
 		out.Strategy = strat.Name()
 	}
-	if w.Fail != nil {
+	if w.Fail != nil && w.Fail.Kind == simrt.FailStepBudgetUnfair {
+		out.Probes["inconclusive-step-budget-under-strategy"]++
+	} else if w.Fail != nil {
 		cr.fail(P(prop), "sim."+string(w.Fail.Kind), -1, "%s", w.Fail.Detail)
 	} else if cr.post != nil {
 		cr.post()
